@@ -293,7 +293,7 @@ class Run:
         if self.undecided: return 2
         if ev["obligations"] == 0 and self.cfg.get("contracts") and not self.only:
             print("CHECKER-ERROR: zero obligations"); return 3
-        floor = self.cfg.get("min_obligations", 1)
+        floor = self.cfg.get("min_obligations", 1 if self.cfg.get("contracts") else 0)
         if ev["obligations"] < floor and not self.only:
             print("CHECKER-ERROR: only %d obligations generated, floor is %d" % (ev["obligations"], floor)); return 3
         return 0
